@@ -1828,3 +1828,21 @@ B('c02-constant-pushed-by-type', 'C02', 'R02.j', PARSE,
   "            code_gen.push(value)")
 B('c19-println-not-a-routine-body', 'C19', 'R19.i', TOKEN,
   "            TokenTypes.PRINT, TokenTypes.PRINTF, TokenTypes.PRINTLN,\n            TokenTypes.PAUSE,", "            TokenTypes.PRINT, TokenTypes.PRINTF,\n            TokenTypes.PAUSE,")
+
+# ------------------------------------------------------------------ round 8
+VMMATH2 = 'bardolph/vm/vm_math.py'
+B('c04-not-pushes-instead-of-replacing', 'C04', 'R04.o', VMMATH2,
+  "            self._eval_stack.replace_top(not self._eval_stack.top)", "            self._eval_stack.push(not self._eval_stack.top)")
+B('c06-time-pattern-macro-untyped', 'C06', 'R11.n', PARSE,
+  "            return value if isinstance(value, TimePattern) else None", "            return value")
+N('c06-time-pattern-macro-if-form', 'C06', PARSE,
+  "            return value if isinstance(value, TimePattern) else None",
+  "            if isinstance(value, TimePattern):\n                return value\n            return None")
+B('c15-size-from-first-tile', 'C15', 'R15.i', LANLIGHT,
+  "        tile = result.tile_devices[result.start_index]", "        tile = result.tile_devices[0]")
+B('c16-brace-value-depends-on-include-reg', 'C16', 'R16.l', PARSE,
+  "        if str(token) in '{[':\n            return True\n        if token.token_type in (", "        if str(token) in '{[':\n            return include_reg\n        if token.token_type in (")
+B('c20-scripts-keyed-by-escaped-path', 'C20', 'R20.q', WEBAPP,
+  "            self._scripts[path] = new_script", "            self._scripts[new_script.path] = new_script")
+B('c05-already-defined-looks-up-next-token', 'C05', 'R05.k', PARSE,
+  "            if not self._context.get_routine(name).undefined:", "            if not self._context.get_routine(str(self._current_token)).undefined:")
